@@ -29,8 +29,15 @@ def ref_discrete(x, y):
     return 0.0 if all(float(a) == float(b) for a, b in zip(x, y)) else 1.0
 
 
+def ref_directed(x, y):
+    """a dissimilarity that is NOT symmetric (like a divergence): excess of the frame over the center counts once,
+    shortfall twice; metric(trajectory, center) is the documented order of the two arguments"""
+    return float(sum(max(float(a) - float(b), 0.0) + 2.0 * max(float(b) - float(a), 0.0) for a, b in zip(x, y)))
+
+
 REF_METRIC = {"euclidean": ref_euclidean, "manhattan": ref_manhattan, "cityblock": ref_manhattan,
-              "chebyshev_py": ref_chebyshev, "discrete_py": ref_discrete, "euclidean_py": ref_euclidean}
+              "chebyshev_py": ref_chebyshev, "discrete_py": ref_discrete, "euclidean_py": ref_euclidean,
+              "directed_py": ref_directed}
 
 
 # user-supplied (python) metrics with the (X, y) -> (n,) calling convention the library documents
@@ -49,7 +56,14 @@ def py_euclidean(X, y):
     return np.sqrt(((X - np.asarray(y, dtype=float)) ** 2).reshape(len(X), -1).sum(axis=1))
 
 
-PY_METRIC = {"chebyshev_py": py_chebyshev, "discrete_py": py_discrete, "euclidean_py": py_euclidean}
+def py_directed(X, y):
+    X = np.asarray(X, dtype=float)
+    d = (X - np.asarray(y, dtype=float)).reshape(len(X), -1)
+    return np.maximum(d, 0.0).sum(axis=1) + 2.0 * np.maximum(-d, 0.0).sum(axis=1)
+
+
+PY_METRIC = {"chebyshev_py": py_chebyshev, "discrete_py": py_discrete, "euclidean_py": py_euclidean,
+             "directed_py": py_directed}
 
 
 def dist_matrix(X, C, metric):
